@@ -102,6 +102,26 @@ class ModuleRef:
         self.name = name
 
 
+class SelfRecursion(AnalysisError):
+    pass
+
+
+class _Overlay(dict):
+    """local bindings over a captured (live) environment"""
+    def __init__(self, base):
+        dict.__init__(self)
+        self.base = base
+        self.local = self
+
+    def __contains__(self, k):
+        return dict.__contains__(self, k) or k in self.base
+
+    def __getitem__(self, k):
+        if dict.__contains__(self, k):
+            return dict.__getitem__(self, k)
+        return self.base[k]
+
+
 class _Return(Exception):
     def __init__(self, value):
         self.value = value
@@ -134,6 +154,7 @@ class Interp:
         self._in_primitive = 0     # inside flowdyn._data (the covariant vector primitives)
         self.stn = None            # stencil.Stn when slice code is analysed
         self.follow_base_init = True
+        self._active_lambdas = []
         self.size_atom = None      # ring element standing for the mesh size n in value arithmetic
         self.on_setattr = None     # hook(obj, attr, value) -> value
         self.np_hooks = {}         # numpy function name -> python callable(args, kwargs)
@@ -179,6 +200,38 @@ class Interp:
     def _noncov(self, item):
         if not self._in_primitive:
             self.ev.noncovariant.append(item)
+
+    def call_value(self, f, args):
+        """call an abstract callable value (lambda / bound method / opaque function)"""
+        fake = ast.parse("f()", mode="eval").body
+        fake.lineno = 0
+
+        class _F:
+            qualname = "<call>"
+            module = None
+        if isinstance(f, BoundMethod):
+            return self.call_function(f.func, [f.selfobj] + list(args), {}, 1)
+        if isinstance(f, OpaqueFn):
+            return self.dom.opaque(f.name, [self.lift(a) if self.is_num(a) else a for a in args], f.positive)
+        if isinstance(f, tuple) and f and f[0] == "lambda":
+            _, lam, lenv, lfunc, dvals = f
+            if id(lam) in self._active_lambdas:
+                raise SelfRecursion("lambda defined at line %d calls itself" % lam.lineno)
+            e2 = _Overlay(lenv)
+            names = [a.arg for a in lam.args.args]
+            for n in names:
+                if n in dvals:
+                    e2[n] = dvals[n]
+            for n, a in zip(names, args):
+                e2[n] = a
+            self._active_lambdas.append(id(lam))
+            try:
+                return self.eval(lam.body, e2, lfunc, 1)
+            finally:
+                self._active_lambdas.pop()
+        if callable(f):
+            return f(*args)
+        raise AnalysisError("value is not callable: %r" % (f,))
 
     # ------------------------------------------------------------------ statements
     def exec_block(self, stmts, env, func, depth):
@@ -420,6 +473,9 @@ class Interp:
         f = self.p.resolve_function_name(node.id, mod)
         if f is not None:
             return f
+        ci = self.p.resolve_class_expr(node, mod)
+        if ci is not None:
+            return ObjStub("class " + ci.name, {r: "registry:%s.%s" % (ci.name, r) for c in self.p.mro(ci) for r in c.registries})
         if node.id in ("abs", "len", "range", "min", "max", "float", "int", "enumerate", "zip", "round", "list"):
             return ModuleRef("builtin:" + node.id)
         raise AnalysisError("%s:%d unknown name %s" % (func.qualname, node.lineno, node.id))
@@ -767,7 +823,13 @@ class Interp:
         raise AnalysisError("%s:%d unsupported subscript %s" % (func.qualname, ln, unparse(node)))
 
     def e_Lambda(self, node, env, func, depth):
-        return ("lambda", node, dict(env), func)
+        # Python semantics: free variables are looked up in the defining scope AT CALL TIME
+        # (env captured by reference), default values are evaluated AT DEFINITION TIME
+        names = [a.arg for a in node.args.args]
+        dvals = {}
+        for n, dflt in zip(names[len(names) - len(node.args.defaults):], node.args.defaults):
+            dvals[n] = self.eval(dflt, env, func, depth)
+        return ("lambda", node, env, func, dvals)
 
     def e_Call(self, node, env, func, depth):
         if isinstance(node.func, ast.Attribute) and node.func.attr == "__init__":
@@ -815,15 +877,24 @@ class Interp:
                     return [[k, v] for k, v in obj.items()]
             raise AnalysisError("%s:%d unsupported method .%s" % (func.qualname, ln, name))
         if isinstance(f, tuple) and f and f[0] == "lambda":
-            _, lam, lenv, lfunc = f
-            e2 = dict(lenv)
+            _, lam, lenv, lfunc, dvals = f
+            if id(lam) in self._active_lambdas:
+                raise SelfRecursion("%s:%d lambda defined at line %d calls itself" % (func.qualname, ln, lam.lineno))
+            e2 = _Overlay(lenv)
             names = [a.arg for a in lam.args.args]
+            for n in names:
+                if n in dvals:
+                    e2[n] = dvals[n]
             for n, a in zip(names, args):
                 e2[n] = a
-            for n, dflt in zip(names[len(names) - len(lam.args.defaults):], lam.args.defaults):
-                if n not in e2 or names.index(n) >= len(args):
-                    e2[n] = self.eval(dflt, lenv, lfunc, depth)
-            return self.eval(lam.body, e2, lfunc, depth + 1)
+            for n in names:
+                if n not in e2.local:
+                    raise AnalysisError("%s:%d missing lambda argument %s" % (func.qualname, ln, n))
+            self._active_lambdas.append(id(lam))
+            try:
+                return self.eval(lam.body, e2, lfunc, depth + 1)
+            finally:
+                self._active_lambdas.pop()
         if isinstance(f, ModuleRef):
             return self.call_builtin(f.name, args, kwargs, node, func)
         if callable(f):
